@@ -1,5 +1,12 @@
 package xy
 
+import (
+	"math"
+
+	"github.com/twpayne/go-geom/bigxy"
+	"github.com/twpayne/go-geom/xy/orientation"
+)
+
 // Adopted from https://github.com/paulmach/orb/blob/master/simplify/douglas_peucker.go
 // Original license:
 //
@@ -76,6 +83,12 @@ func dpWorker(ls []float64, threshold float64, mask []byte, stride int) int {
 		for i := start + 1; i < end; i++ {
 			p := ls[i*stride : i*stride+stride]
 			dist := distanceFromSegmentSquared(a, b, p)
+			if dist == 0 && threshold == 0 && !isOnSegment(a, b, p) {
+				// The rounded distance of a point that is not on the segment can
+				// be zero: it underflows, or a far end of the segment dwarfs it.
+				// With a zero threshold only points on the segment are dropped.
+				dist = math.SmallestNonzeroFloat64
+			}
 			if dist > maxDist {
 				maxDist = dist
 				maxIndex = i
@@ -95,6 +108,18 @@ func dpWorker(ls []float64, threshold float64, mask []byte, stride int) int {
 	}
 
 	return found
+}
+
+// isOnSegment returns whether point lies exactly on the segment [a, b].
+func isOnSegment(a, b, point []float64) bool {
+	if bigxy.OrientationIndex(a, b, point) != orientation.Collinear {
+		return false
+	}
+	return isBetween(point[0], a[0], b[0]) && isBetween(point[1], a[1], b[1])
+}
+
+func isBetween(v, end1, end2 float64) bool {
+	return (end1 <= v && v <= end2) || (end2 <= v && v <= end1)
 }
 
 // distanceFromSegmentSquared returns point's squared distance from the segment [a, b].
